@@ -265,10 +265,12 @@ def i_JAL(ins, fmap):
 
 def i_JALR(ins, fmap):
     dst, src1, imm = ins.operands
+    # the target is computed before rd is written (rd may be rs1);
+    # its least-significant bit is cleared
+    target = fmap(src1 + imm) & ~1
     if dst is not zero:
         fmap[dst] = fmap(pc + ins.length)
-    # the least-significant bit of the target is cleared
-    fmap[pc] = fmap(src1 + imm) & ~1
+    fmap[pc] = target
 
 
 def i_BEQ(ins, fmap):
